@@ -8,6 +8,10 @@ CHECKS = {
    text="Every postcondition clause of rotation_matrix and calcule_base taken from the property statement is discharged for all real inputs on every path of the real function (loop-free, fully symbolic => complete); the bounded float twin of the same clauses is reported separately and not counted as proved.",
    note="A1 float64 as exact reals; A2 numpy object-dtype transparency (concolically cross-checked); A4 trig axioms; trusted: z3, sympy, CPython/numpy, vf/symrun.py",
    tech=TECH + ": symbolic execution of the real functions, per-path VCs discharged by z3 / Groebner ideal membership", ref="DESIGN.md section 6 C17"),
+ "C19": dict(cat="proof", engine="symrun",
+   text="Residue.distance_to runs on fully symbolic coordinates and boxes (one path). Orthorhombic boxes: result^2 equals sum (d_i - L_i k_i)^2 for the code's integers k and is <= the same sum for every integer vector n (free integer symbols: all images), hence <= the direct distance. General non-singular boxes: symmetry, invariance under symbolic integer lattice shifts of either argument, inverse-flag equivalence. Every clause is discharged by scripted z3 / Groebner / explicit-certificate steps; the bounded float twin is separate.",
+   note="A1 float64 as reals; A2; A3 contract of numpy.linalg.inv (two-sided inverse, functional) and numpy.round (nearest integer); ties excluded as in the statement; trusted: z3, sympy, vf/symrun.py",
+   tech=TECH + ": symbolic execution of the real method with contract stubs for numpy.linalg.inv / numpy.round, scripted SMT + ideal-membership proofs", ref="DESIGN.md section 6 C19"),
 }
 NOT_YET = "check not built yet in this round (work in progress; see DESIGN.md section 6 for the plan)"
 NA = {}
